@@ -206,7 +206,7 @@ func genC03(r *rand.Rand) *c03Case {
 
 func init() {
 	register("C03", func(ctx *Ctx) {
-		n := ctx.N(480, 20000)
+		n := ctx.N(960, 20000)
 		for i := 0; i < n && !ctx.Abort; i++ {
 			c := genC03(ctx.Rng)
 			ctx.SampleKind(fmt.Sprintf("%v/%v", c.Stall, c.AtEvent > 0), map[string]interface{}{"kind": fmt.Sprintf("in-process stall=%v event-based=%v", c.Stall, c.AtEvent > 0), "case": c})
